@@ -67,6 +67,7 @@ type inst struct {
 	index    *vecfc.Index
 	input    *evStore
 	blocks   []blockRec
+	spec     map[uint64]*dag.MutableBaseEvent // event objects of speculative builds (for `rebuild`)
 	rootsCfg int // 0: cache 0/0, 1: 1/1, 2: 2/2, 3: lite default
 	critErr  string
 }
@@ -234,7 +235,7 @@ func kvOf(ws []string) map[string]string {
 func (r *consRunner) Step(line string) string {
 	f := Fields(line)
 	switch f[0] {
-	case "restart", "reset", "build", "process", "fc", "hb", "roots", "state":
+	case "restart", "reset", "build", "rebuild", "process", "fc", "hb", "roots", "state":
 		if len(f) < 2 || r.insts[Atou(f[1])] == nil {
 			return "noinst"
 		}
@@ -301,8 +302,40 @@ func (r *consRunner) Step(line string) string {
 			be := e.Build(tailOf(n))
 			r.events[n] = be
 			r.byHash[be.ID()] = n
+		} else {
+			if in.spec == nil {
+				in.spec = map[uint64]*dag.MutableBaseEvent{}
+			}
+			in.spec[n] = e
 		}
 		return fmt.Sprintf("frame=%d", e.Frame())
+	case "rebuild": // rebuild <k> <n> c= s= l= p= : Build again on the SAME event object that `build <k> <n> … keep=0` used
+		in := r.insts[Atou(f[1])]
+		obj, ok := in.spec[Atou(f[2])]
+		kv := kvOf(f[3:])
+		fresh := r.mkEvent(Atou(f[2]), uint64(in.store.GetEpoch()), kv, 0)
+		if fresh == nil {
+			return "err unknown-parent"
+		}
+		for _, p := range fresh.Parents() {
+			if !in.input.HasEvent(p) {
+				return "err noparent"
+			}
+		}
+		if !ok {
+			obj = fresh
+		} else {
+			obj.SetEpoch(fresh.Epoch())
+			obj.SetCreator(fresh.Creator())
+			obj.SetSeq(fresh.Seq())
+			obj.SetLamport(fresh.Lamport())
+			obj.SetParents(fresh.Parents())
+			obj.SetFrame(0)
+		}
+		if err := in.lch.Build(obj); err != nil {
+			return "err " + err.Error()
+		}
+		return fmt.Sprintf("frame=%d", obj.Frame())
 	case "process": // process <k> <n>
 		in := r.insts[Atou(f[1])]
 		e, ok := r.events[Atou(f[2])]
@@ -511,6 +544,8 @@ func genConsCase(r *Rand, tier string, w *bufio.Writer) {
 		}
 		emit("seal %d %d %s", e, sealFrame[e], valsStr(ids, nws))
 	}
+	specN := uint64(0)
+	specAge := 0
 	restartHeavy := r.Chance(1, 8)
 	sparse := r.Chance(1, 3)
 	slowN := 0
@@ -696,8 +731,16 @@ func genConsCase(r *Rand, tier string, w *bufio.Writer) {
 			pj = "-"
 		}
 		// occasionally: speculative builds that are never processed (C07), on a random instance that has the parents
-		if r.Chance(1, 12) {
+		if specN != 0 && (specAge < 3 || r.Chance(1, 4)) {
+			// the application re-uses (re-fills and rebuilds) the event object of an earlier speculative build,
+			// soon after it, while the first build's forkless-cause answers are still cached
+			emit("rebuild 0 %d c=%d s=%d l=%d p=%s", specN, creator, seq, maxL+1, pj)
+		}
+		specAge++
+		if r.Chance(1, 8) {
 			emit("build 0 %d c=%d s=%d l=%d p=%s keep=0", 900000+n, creator, seq, maxL+1, pj)
+			specN = 900000 + n
+			specAge = 0
 		}
 		bres := emit("build 0 %d c=%d s=%d l=%d p=%s", n, creator, seq, maxL+1, pj)
 		builtFrame := uint64(0)
